@@ -26,12 +26,25 @@ def lib():
     class Lin(PDEBase):
         """du/dt = a*u + g(t) with optional logging of the times the rate is evaluated at"""
 
-        def __init__(self, a=-0.5, poly=None, log=None):
+        def __init__(self, a=-0.5, poly=None, log=None, hook=False):
             super().__init__()
+            self.hook = hook
             self.a = a
             self.poly = tuple(poly) if poly else None  # g(t) = sum_k poly[k] t**k
             self.log = log
             self.complex_valued = isinstance(a, complex)
+
+        def make_post_step_hook(self, state, backend="numpy"):
+            """stateful hook: counts the steps (scalar data) and feeds the count back into the state"""
+            if not self.hook:
+                raise NotImplementedError
+
+            def post_step_hook(state_data, t, post_step_data):
+                state_data *= 1 + 1e-3 * post_step_data
+                post_step_data += 1.0
+                return state_data, post_step_data
+
+            return post_step_hook, 0.0
 
         def g(self, t):
             if self.poly is None:
